@@ -14,31 +14,56 @@
 (* a new controller is started on the same files and the interrupted epoch *)
 (* is run again with the same metrics.                                     *)
 (*                                                                         *)
-(* File contents are abstracted to the epoch whose parameters they hold.   *)
+(* File contents are abstracted to the epoch whose parameters they hold     *)
+(* and, for the optimizer state, the learning rate it carries (as the       *)
+(* number of reductions applied, TrainCtl's lrk).  The decisions of the     *)
+(* update (new rate, best epoch) are TrainCtl's, INSTANTIATED: the rate     *)
+(* recorded for epoch e is the one TrainCtl!Update puts into row e; with    *)
+(* BestTrain the best epoch is taken by the training metric                 *)
+(* (update_for_epoch(..., best_is_train=True)).                             *)
 (***************************************************************************)
-EXTENDS Naturals, Integers, Sequences, FiniteSets, TLC, SequencesExt
+EXTENDS Naturals, Integers, Sequences, FiniteSets, TLC, SequencesExt, Json
 
 CONSTANTS EpochFmt,   \* TRUE: file names contain the epoch; FALSE: one fixed name per kind
           KeepLB,     \* keep_last_and_best_only
+          BestTrain,  \* best_is_train: "best" = lowest TRAINING metric
+          Params,     \* TrainCtl parameter record (learning-rate reductions)
           MaxE,       \* epochs per run
           MaxCrash,   \* crashes per behaviour
           Levels      \* validation metric values
 
 INF == 1000
 
-VARIABLES M,        \* 1..MaxE -> metric of each epoch (fixed per behaviour)
+VARIABLES M,        \* 1..MaxE -> validation metric of each epoch (fixed per behaviour)
+          R,        \* the rows TrainCtl records for M (fixed per behaviour): R[e].lrk, R[e].trn
           hist,     \* history file: sequence of recorded validation metrics
-          fs,       \* checkpoint files: name -> epoch whose parameters the file holds
-          tmps,     \* temporary files: id -> content (0 = nothing written yet)
+          fs,       \* checkpoint files: name -> [e |-> epoch whose state the file holds, k |-> rate it carries]
+          tmps,     \* temporary files: id -> content (Nothing = nothing written yet)
           pc,       \* program point inside the update ("idle" between updates)
           plan,     \* the in-flight update (lost on crash)
+          optk,     \* process memory: the rate the live optimizer holds (restored from the last checkpoint on restart)
           crashes,
           refused   \* the update raised ("would overwrite best checkpoint")
-vars == <<M, hist, fs, tmps, pc, plan, crashes, refused>>
+vars == <<M, R, hist, fs, tmps, pc, plan, optk, crashes, refused>>
+
+\* parameter settings of the fault enumeration (vf/props/c16.py P0, P1): reductions happen, no early stop
+FsP0 == [P |-> 2, B |-> 0, TH |-> 0, RP |-> 1, RB |-> 0, RC |-> 0, RTH |-> 1, ne |-> 0, EK |-> 9]
+FsP1 == [P |-> 1, B |-> 1, TH |-> 0, RP |-> 2, RB |-> 1, RC |-> 1, RTH |-> 1, ne |-> 0, EK |-> 1]
+
+\* TrainCtl with its history bound to h; only its state-level operators are used
+TC(h) == INSTANCE TrainCtl WITH p <- Params, ParamSpace <- {Params}, MaxLen <- MaxE, hist <- h,
+                                cache <- <<>>, conts <- <<>>, optlr <- 0, ckpt <- <<>>, decl <- <<>>, fresh <- FALSE
+RowsFor(m) == LET f[n \in 0..MaxE] == IF n = 0 THEN <<>>
+                                      ELSE Append(f[n - 1], TC(f[n - 1])!Update(TC(f[n - 1])!FromHist(f[n - 1]), m[n]))
+              IN f[MaxE]
+TrnOf(e, v) == TC(<<>>)!TrainOf(e, v)          \* the training metric fed alongside validation metric v at epoch e
+LrkOf(e) == IF e = 0 THEN 0 ELSE R[e].lrk      \* the rate recorded for (and to be found in the optimizer state of) epoch e
 
 Name(kind, e) == IF EpochFmt THEN <<kind, e>> ELSE <<kind, 0>>
 Names(e) == {Name("m", e), Name("o", e)}
-ValAt(h, e) == IF e = 0 THEN INF ELSE h[e]
+\* the metric "best" goes by
+KeyAt(h, e) == IF e = 0 THEN INF ELSE IF BestTrain THEN TrnOf(e, h[e]) ELSE h[e]
+ValAt(h, e) == KeyAt(h, e)
 \* lowest metric, ties to the earlier epoch (get_best_epoch)
 Best(h) == CHOOSE b \in 0..Len(h) : /\ \A e \in 0..Len(h) : ValAt(h, b) <= ValAt(h, e)
                                     /\ \A e \in 0..Len(h) : ValAt(h, e) = ValAt(h, b) => b <= e
@@ -47,10 +72,14 @@ Full == [e \in 1..MaxE |-> M[e]]
 Put(f, n, c) == [x \in DOMAIN f \cup {n} |-> IF x = n THEN c ELSE f[x]]
 Drop(f, n) == [x \in DOMAIN f \ {n} |-> f[x]]
 NoPlan == [e |-> 0]
+Nothing == [e |-> 0, k |-> 0]
+\* what a state dict saved for epoch e should hold
+Content(kind, e) == [e |-> e, k |-> IF kind = "o" THEN LrkOf(e) ELSE 0]
 
 Init == /\ M \in [1..MaxE -> Levels]
+        /\ R = RowsFor(M)
         /\ hist = <<>> /\ fs = <<>> /\ tmps = <<>> /\ pc = "idle" /\ plan = NoPlan
-        /\ crashes = 0 /\ refused = FALSE
+        /\ optk = 0 /\ crashes = 0 /\ refused = FALSE
 
 (***************************************************************************)
 (* the update, step by step                                                *)
@@ -72,40 +101,44 @@ Begin ==
                   ELSE (last \cup (IF lastbest # curbest THEN lb ELSE {})) \ new
      IN IF raises
         THEN /\ refused' = TRUE
-             /\ UNCHANGED <<M, hist, fs, tmps, pc, plan, crashes>>
+             /\ UNCHANGED <<M, R, optk, hist, fs, tmps, pc, plan, crashes>>
+        \* the new rate is computed from the history (row e - 1) and, only if it was reduced, written into
+        \* the live optimizer -- when the decision is taken, BEFORE anything is saved
         ELSE /\ plan' = [e |-> e, v |-> v, first |-> first, clean |-> clean]
+             /\ optk' = IF LrkOf(e) # LrkOf(e - 1) THEN LrkOf(e) ELSE optk
              /\ pc' = IF first THEN "append1" ELSE "tmpM"
-             /\ UNCHANGED <<M, hist, fs, tmps, crashes, refused>>
+             /\ UNCHANGED <<M, R, hist, fs, tmps, crashes, refused>>
 
 AppendFirst == /\ pc = "append1"
                /\ hist' = Append(hist, plan.v)
                /\ pc' = "tmpM"
-               /\ UNCHANGED <<M, fs, tmps, plan, crashes, refused>>
+               /\ UNCHANGED <<M, R, optk, fs, tmps, plan, crashes, refused>>
 MkTmp(here, id, there) == /\ pc = here
-                          /\ tmps' = Put(tmps, id, 0)
+                          /\ tmps' = Put(tmps, id, Nothing)
                           /\ pc' = there
-                          /\ UNCHANGED <<M, hist, fs, plan, crashes, refused>>
+                          /\ UNCHANGED <<M, R, optk, hist, fs, plan, crashes, refused>>
+\* torch.save(state_dict): the model's parameters / the optimizer's state WITH the rate it holds now
 WrTmp(here, id, there) == /\ pc = here
-                          /\ tmps' = Put(tmps, id, plan.e)
+                          /\ tmps' = Put(tmps, id, [e |-> plan.e, k |-> IF id[1] = "o" THEN optk ELSE 0])
                           /\ pc' = there
-                          /\ UNCHANGED <<M, hist, fs, plan, crashes, refused>>
+                          /\ UNCHANGED <<M, R, optk, hist, fs, plan, crashes, refused>>
 \* fresh tmp ids: (epoch, kind, attempt) -- an earlier crashed attempt may have left one behind
 TmpId(kind) == <<kind, plan.e, crashes>>
 Repl(here, kind, there) == /\ pc = here
                            /\ fs' = Put(fs, Name(kind, plan.e), tmps[TmpId(kind)])
                            /\ tmps' = Drop(tmps, TmpId(kind))
                            /\ pc' = there
-                           /\ UNCHANGED <<M, hist, plan, crashes, refused>>
+                           /\ UNCHANGED <<M, R, optk, hist, plan, crashes, refused>>
 AppendLast == /\ pc = "append2"
               /\ hist' = Append(hist, plan.v)
               /\ pc' = "clean"
-              /\ UNCHANGED <<M, fs, tmps, plan, crashes, refused>>
+              /\ UNCHANGED <<M, R, optk, fs, tmps, plan, crashes, refused>>
 Clean == /\ pc = "clean"
          /\ IF plan.clean \cap DOMAIN fs = {}
             THEN pc' = "idle" /\ plan' = NoPlan /\ UNCHANGED fs
             ELSE \E n \in plan.clean \cap DOMAIN fs :        \* deletions in any order
                    fs' = Drop(fs, n) /\ UNCHANGED <<pc, plan>>
-         /\ UNCHANGED <<M, hist, tmps, crashes, refused>>
+         /\ UNCHANGED <<M, R, optk, hist, tmps, crashes, refused>>
 
 Save == \/ MkTmp("tmpM", TmpId("m"), "wrM") \/ WrTmp("wrM", TmpId("m"), "tmpO")
         \/ MkTmp("tmpO", TmpId("o"), "wrO") \/ WrTmp("wrO", TmpId("o"), "replM")
@@ -113,9 +146,11 @@ Save == \/ MkTmp("tmpM", TmpId("m"), "wrM") \/ WrTmp("wrM", TmpId("m"), "tmpO")
         \/ Repl("replO", "o", IF plan.first THEN "clean" ELSE "append2")
 
 \* the process dies; a new controller starts on the same files
+\* (load_model_and_optimizer_for_epoch: the optimizer gets the rate its last checkpoint carries)
 Crash == /\ pc # "idle" /\ crashes < MaxCrash
          /\ pc' = "idle" /\ plan' = NoPlan /\ crashes' = crashes + 1
-         /\ UNCHANGED <<M, hist, fs, tmps, refused>>
+         /\ optk' = IF LastE(hist) > 0 /\ Name("o", LastE(hist)) \in DOMAIN fs THEN fs[Name("o", LastE(hist))].k ELSE 0
+         /\ UNCHANGED <<M, R, hist, fs, tmps, refused>>
 
 Next == Begin \/ AppendFirst \/ Save \/ AppendLast \/ Clean \/ Crash
 Spec == Init /\ [][Next]_vars
@@ -123,8 +158,10 @@ Spec == Init /\ [][Next]_vars
 (***************************************************************************)
 (* C16                                                                     *)
 (***************************************************************************)
-Loadable(e) == /\ Name("m", e) \in DOMAIN fs /\ fs[Name("m", e)] = e
-               /\ Name("o", e) \in DOMAIN fs /\ fs[Name("o", e)] = e
+\* both files of epoch e exist and hold exactly what was to be saved for e: e's parameters, and an
+\* optimizer state carrying the rate recorded for e
+Loadable(e) == /\ Name("m", e) \in DOMAIN fs /\ fs[Name("m", e)] = Content("m", e)
+               /\ Name("o", e) \in DOMAIN fs /\ fs[Name("o", e)] = Content("o", e)
 \* evaluated in EVERY state in which the process may die (or has finished an update), hence at
 \* every crash point; a state inside an update that no further crash can expose is not observable
 Observable == pc = "idle" \/ crashes < MaxCrash
@@ -140,5 +177,12 @@ ExactlyTwo == (KeepLB /\ crashes = 0 /\ pc = "idle" /\ Len(hist) > 0) =>
 AllLoadable == (~KeepLB /\ EpochFmt /\ Observable) => \A e \in 1..Len(hist) : Loadable(e)
 \* whatever happened, training can be carried on to the end and ends with the same history
 Convergent == (pc = "idle" /\ ~refused /\ Len(hist) = MaxE) => hist = Full
+\* oracle for the fault enumeration on the real code: rate and best epoch per prefix of the history
+Emit(rec) == PrintT(<<"VFJ", ToJson(rec)>>)
+Export == (pc = "idle" /\ hist = <<>> /\ crashes = 0) =>
+             Emit([p |-> Params, best_is_train |-> BestTrain, M |-> Full, lrk |-> [e \in 1..MaxE |-> R[e].lrk], trn |-> [e \in 1..MaxE |-> R[e].trn],
+                   best |-> [e \in 1..MaxE |-> Best(SubSeq(Full, 1, e))]])
+\* the live optimizer holds the rate recorded for the last epoch whenever training may go on from here
+LiveRate == (pc = "idle" /\ (LastE(hist) = 0 \/ Loadable(LastE(hist)))) => optk = LrkOf(LastE(hist))
 TypeOK == pc \in {"idle", "append1", "tmpM", "wrM", "tmpO", "wrO", "replM", "replO", "append2", "clean"}
 =============================================================================
